@@ -102,8 +102,10 @@ def judge_pole_build(c, cert_p, cert_u, base):
     plf = geom.placed_failures(c.bpj, exp, geom.user_names_of(exp) | {"small-lamp"})
     if cert_u != (plf is None):
         return "violation", {"kind": "validator-and-mirror-disagree", "certificate_placed": cert_u, "mirror": plf}
-    if plf and geom.entity_total(c.bpj) <= 500:
+    if plf and not geom.s8_region(c):
         return "violation", dict(plf, kind="user-entities-changed")
+    if plf:
+        return "known:S8", plf
     if base is not None and base.status == "ok":
         td = geom.twin_diff(c, base)
         if td and td["kind"] != "twin-undecided":
@@ -131,8 +133,10 @@ def judge_plain_build(c, cert_r, cert_u):
     plf = geom.placed_failures(c.bpj, exp, geom.user_names_of(exp) | {"small-lamp"})
     if cert_u != (plf is None):
         return "violation", {"kind": "validator-and-mirror-disagree", "certificate_placed": cert_u, "mirror": plf}
-    if plf and geom.entity_total(c.bpj) <= 500:
+    if plf and not geom.s8_region(c):
         return "violation", dict(plf, kind="user-entities-changed")
+    if plf:
+        return "known:S8", plf
     return "pass", None
 
 
